@@ -27,7 +27,7 @@ class IndicatorTarget(IndicatorConstraint):
 
     def __init__(self, **data) -> None:
         super().__init__(**data)
-        self.append_z3_assertion(self.indicator._indicator_variable == self.value)
+        self.set_z3_assertions(self.indicator._indicator_variable == self.value)
 
 
 class IndicatorBounds(IndicatorConstraint):
@@ -44,10 +44,10 @@ class IndicatorBounds(IndicatorConstraint):
             )
 
         if self.lower_bound is not None:
-            self.append_z3_assertion(
+            self.set_z3_assertions(
                 self.indicator._indicator_variable >= self.lower_bound
             )
         if self.upper_bound is not None:
-            self.append_z3_assertion(
+            self.set_z3_assertions(
                 self.indicator._indicator_variable <= self.upper_bound
             )
